@@ -118,14 +118,17 @@ fn mcp_server() -> ClientRequest {
 /// what a node serves for the data of the scenarios: (config value+md5, mcp server by id, mcp server by unique key)
 #[derive(Debug, PartialEq, Clone)]
 struct Served {
-    config: Option<(String, String)>,
+    /// value, md5, type, description, last-modified time
+    config: Option<(String, String, Option<String>, Option<String>, i64)>,
     mcp_by_id: Option<(u64, String)>,
     mcp_by_key: Option<(u64, String)>,
 }
 
 async fn served(node: &Node) -> Served {
     let config = match node.config.send(ConfigCmd::GET(ConfigKey::new("a.yaml", "DEFAULT_GROUP", ""))).await {
-        Ok(Ok(ConfigResult::Data { value, md5, .. })) => Some((value.to_string(), md5.to_string())),
+        Ok(Ok(ConfigResult::Data { value, md5, config_type, desc, last_modified })) => {
+            Some((value.to_string(), md5.to_string(), config_type.map(|e| e.to_string()), desc.map(|e| e.to_string()), last_modified))
+        }
         _ => None,
     };
     let mcp_by_id = match node.mcp.send(McpManagerReq::GetServer(7)).await {
